@@ -68,6 +68,9 @@ struct Opts {
     bool content_type = true;       // Content-Type fields with harmless media types (request_content_type / response_content_type are derived from them)
     bool urlencoded_bodies = false; // Content-Type: application/x-www-form-urlencoded with a matching body
     int max_body = 96;
+    bool ip_literals = true;        // hosts may be IPv4 / bracketed IPv6 literals
+    bool many_interim = true;       // up to three "100 Continue" responses (with or without a field) before a final response
+    bool connect_last = false;      // the last exchange may be a CONNECT (authority-form target) that the server refuses
 };
 
 static const char *KNOWN_METHODS[] = {"GET", "POST", "PUT", "DELETE", "OPTIONS", "PATCH", "PROPFIND", "HEAD"};
@@ -139,7 +142,9 @@ inline Msg gen_request(const Opts &o, int idx, bool first) {
     bool wants_body = (m.method == "POST" || m.method == "PUT" || m.method == "PATCH") ? rcx::chance(4, 5) : rcx::chance(1, 8);
     if (o.head_and_bodyless && rcx::chance(1, 8)) { m.method = "HEAD"; wants_body = false; }
     m.version = rcx::chance(1, 5) ? "HTTP/1.0" : "HTTP/1.1";
-    std::string host = "h" + gen_token(1, 5) + ".example"; int port = rcx::chance(1, 3) ? rcx::range(1, 65535) : -1;
+    std::string host = "h" + gen_token(1, 5) + ".example";
+    if (o.ip_literals && rcx::chance(1, 6)) { static const char *LIT[] = {"10.1.2.3", "192.168.0.254", "[::1]", "[2001:db8::1]", "[fe80::a:b]", "[::ffff:10.0.0.1]"}; host = LIT[rcx::range(0, 5)]; } // IPv4 / bracketed IPv6 literals (the colons inside the brackets are not the port separator)
+    int port = rcx::chance(1, 3) ? rcx::range(1, 65535) : -1;
     std::string path = "/" + m.tag; if (rcx::coin()) path += "/" + gen_token(1, 6); if (rcx::chance(1, 3)) path += "?" + gen_token(1, 3) + "=" + gen_token(0, 4) + (rcx::coin() ? "&" + gen_token(1, 3) + "=" + gen_token(0, 3) : "");
     bool absolute = o.absolute_uri && rcx::chance(1, 5);
     if (absolute && rcx::chance(1, 6)) path = "?" + m.tag + "=" + gen_token(0, 4); // an absolute-form target may have an empty path directly followed by the query
@@ -178,7 +183,7 @@ inline Msg gen_response(const Opts &o, int idx, const Msg &rq, bool last) {
     static const char *ST[] = {"200", "201", "404", "500", "302", "206", "403"};
     m.status = ST[rcx::range(0, 6)]; m.reason = rcx::chance(1, 8) ? "" : gen_token(1, 6) + (rcx::coin() ? " " + gen_token(1, 4) : "");
     bool bodyless = false;
-    if (rq.method == "HEAD") bodyless = true;
+    if (rq.method == "HEAD") { bodyless = true; if (o.head_and_bodyless && rcx::chance(1, 3)) m.status = rcx::coin() ? "304" : "204"; } // a HEAD answer has no body whatever its status and whatever length it announces
     else if (o.head_and_bodyless && rcx::chance(1, 8)) { m.status = rcx::coin() ? "204" : "304"; bodyless = true; }
     int nh = rcx::sized(0, 5);
     bool http11 = m.version == "HTTP/1.1";
@@ -194,7 +199,7 @@ inline Msg gen_response(const Opts &o, int idx, const Msg &rq, bool last) {
         if (last && o.close_delimited && rcx::chance(1, 4)) fr = F_CLOSE;
         else fr = (o.chunked && http11 && rcx::chance(2, 5)) ? F_CHUNKED : F_CL;
         add_framing(m, o, fr);
-    } else if (rq.method == "HEAD" && rcx::coin()) { Hdr h; h.name = "Content-Length"; h.lines.push_back(" " + std::to_string(rcx::range(0, 500))); m.headers.push_back(h); } // HEAD answers may announce a length
+    } else if (rq.method == "HEAD" && m.status != "204" && rcx::coin()) { Hdr h; h.name = "Content-Length"; h.lines.push_back(" " + std::to_string(rcx::range(0, 500))); m.headers.push_back(h); } // HEAD answers may announce a length
     if (o.bare_lf && rcx::chance(1, 6)) m.eol = "\n";
     return m;
 }
@@ -206,9 +211,16 @@ inline Exchange gen_exchange(const Opts &o) {
         bool expect = o.expect100 && rq.framing != F_NONE && rq.version == "HTTP/1.1" && rcx::chance(1, 6);
         if (expect) { Hdr h; h.name = "Expect"; h.lines.push_back(" 100-continue"); rq.headers.push_back(h); }
         x.req.push_back(rq);
-        if (expect && rcx::chance(2, 3)) { Msg c; c.req = false; c.interim = true; c.version = "HTTP/1.1"; c.status = "100"; c.reason = "Continue"; c.tag = "i" + std::to_string(i); c.eol = "\r\n"; x.res.push_back(c); }
+        if (expect && rcx::chance(2, 3)) { int n100 = (o.many_interim && rcx::chance(1, 3)) ? rcx::range(2, 3) : 1;
+            for (int q = 0; q < n100; q++) { Msg c; c.req = false; c.interim = true; c.version = "HTTP/1.1"; c.status = "100"; c.reason = "Continue"; c.tag = "i" + std::to_string(i); c.eol = "\r\n"; if (o.many_interim && rcx::chance(1, 4)) { Hdr h; h.name = "X-Interim"; h.lines.push_back(" " + std::to_string(q)); c.headers.push_back(h); } x.res.push_back(c); } }
         x.res.push_back(gen_response(o, i, rq, i == n - 1));
     }
+    if (o.connect_last && rcx::chance(1, 5)) { // a refused CONNECT closes the exchange: authority-form target (reg-name, IPv4 or bracketed IPv6 literal, always with a port)
+        if (!x.res.empty() && x.res.back().framing == F_CLOSE) { Msg &l = x.res.back(); l.framing = F_NONE; add_framing(l, o, F_CL); }
+        static const char *AH[] = {"tunnel.example", "10.9.8.7", "[2001:db8::1]", "[::1]", "UPPER.Example"}; int i = n; Msg rq; rq.req = true; rq.tag = "q" + std::to_string(i) + "z"; rq.method = "CONNECT"; rq.version = "HTTP/1.1";
+        std::string a = std::string(AH[rcx::range(0, 4)]) + ":" + std::to_string(rcx::chance(1, 2) ? 443 : rcx::range(1, 65535)); rq.target = a; Hdr hh; hh.name = "Host"; hh.lines.push_back(" " + a); rq.headers.push_back(hh);
+        rq.headers.push_back(gen_header("X-Tag", rq.tag, o, false, true)); x.req.push_back(rq);
+        Msg rs; rs.req = false; rs.tag = "s" + std::to_string(i) + "z"; static const char *RS[] = {"403", "407", "500", "404"}; rs.status = RS[rcx::range(0, 3)]; rs.reason = "No"; rs.headers.push_back(gen_header("X-Tag", rs.tag, o, false, true)); rs.body = rcx::coin() ? "refused " + rs.tag : ""; add_framing(rs, o, F_CL); x.res.push_back(rs); }
     return x;
 }
 
